@@ -330,7 +330,7 @@ func (r *Run) Finish(fail func(string)) {
 		if err != nil {
 			panic(err)
 		}
-		p := filepath.Join(r.outDir, fmt.Sprintf("%s.shard%02d.json", r.Prop, r.Shard))
+		p := filepath.Join(r.outDir, fmt.Sprintf("%s.%s.shard%02d.json", r.Prop, os.Getenv("VERIF_PART"), r.Shard))
 		if err := os.WriteFile(p, b, 0o644); err != nil {
 			panic(err)
 		}
